@@ -376,3 +376,111 @@ Proof.
 Qed.
 
 End F.
+
+(* ---------- the compiled instance is the one written in the document ---------- *)
+(* mapM over an enumerated list keeps the list's shape *)
+Lemma mapM_enum_proj {A B C} (g : nat -> A -> res B) (pa : A -> C) (pb : B -> C) :
+  (forall k a b, g k a = Ok b -> pb b = pa a) ->
+  forall l n r,
+    mapM (fun '(k, a) => g k a)
+         ((fix en (n : nat) (l : list A) := match l with [] => [] | a :: r => (n, a) :: en (S n) r end) n l) = Ok r ->
+    map pb r = map pa l.
+Proof.
+  intros Hg. induction l as [|a l IH]; intros n r H; simpl in H.
+  - inversion H; subst. reflexivity.
+  - destruct (g n a) as [b|] eqn:E; simpl in H; [|discriminate].
+    match type of H with bind ?e _ = _ => destruct e as [bs|] eqn:E2; simpl in H; [|discriminate] end.
+    inversion H; subst. simpl. rewrite (Hg _ _ _ E). f_equal. eapply IH; eauto.
+Qed.
+
+Section J.
+Variable d : ddoc.
+
+(* jobs, operation order, machines and durations of the compiled instance are those written in the document *)
+Theorem compile_jobs_as_written early i L :
+  compile_inst d early = Ok (i, L) ->
+  map (map (fun oc => (oc_mach oc, oc_dur oc))) (i_jobs i) = map (map (fun md => (fst md, Det (snd md)))) (d_jobs d).
+Proof.
+  unfold compile_inst. intros H.
+  destruct (nm d) as [nmach|]; simpl in H; [|discriminate].
+  destruct (build_machines d 0 nmach nmach (map fst (d_bufs d))) as [[[machs mlabs] ids1]|]; simpl in H; [|discriminate].
+  repeat match type of H with
+         | context [let '(_, _) := ?e in _] => destruct e as [? ?]
+         | context [match ?e with (_, _) => _ end] => destruct e as [? ?]
+         end.
+  match type of H with bind ?e _ = _ => destruct e as [jobs|] eqn:Ej; simpl in H; [|discriminate] end.
+  match type of H with bind ?e _ = _ => destruct e; simpl in H; [|discriminate] end.
+  inversion H; subst i L. simpl. clear H.
+  revert Ej. apply (mapM_enum_proj _ (map (fun md => (fst md, Det (snd md)))) (map (fun oc => (oc_mach oc, oc_dur oc)))).
+  intros j ops cs Hops. revert Hops.
+  apply (mapM_enum_proj _ (fun md => (fst md, Det (snd md))) (fun oc => (oc_mach oc, oc_dur oc))).
+  intros k md oc Hoc. simpl in Hoc.
+  match type of Hoc with bind ?e _ = _ => destruct e as [t|]; simpl in Hoc; [|discriminate] end.
+  inversion Hoc; subst. reflexivity.
+Qed.
+
+Lemma build_machines_len : forall n k nmach ids ms labs ids',
+  build_machines d k n nmach ids = Ok (ms, labs, ids') -> length ms = n.
+Proof.
+  induction n as [|n IH]; intros k nmach ids ms labs ids' H; simpl in H.
+  - inversion H; subst. reflexivity.
+  - repeat match type of H with
+           | context [let '(_, _) := ?e in _] => destruct e as [? ?]
+           end.
+    match type of H with bind ?e _ = _ => destruct e; simpl in H; [|discriminate] end.
+    repeat match type of H with
+           | context [let '(_, _) := ?e in _] => destruct e as [? ?]
+           end.
+    match type of H with bind ?e _ = _ => destruct e as [[[r labs0] ids0]|] eqn:E; simpl in H; [|discriminate] end.
+    inversion H; subst. simpl. f_equal. eapply IH; eauto.
+Qed.
+
+Lemma build_transports_len : forall wo n ids ts labs ids',
+  build_transports d wo n ids = (ts, labs, ids') -> length ts = n.
+Proof.
+  induction n as [|n IH]; intros ids ts labs ids' H; simpl in H.
+  - inversion H; subst. reflexivity.
+  - unfold take_id in H.
+    destruct (build_transports d wo n (ids ++ [new_id ids])) as [[r labs0] ids0] eqn:E.
+    inversion H; subst. simpl. f_equal. eapply IH; eauto.
+Qed.
+
+(* numbers of machines and AGVs, the standalone buffers and the early-transport switch are those of the document
+   (defaults: one machine per operation of the first job line; one AGV per job when no logistics amount is given;
+   an unbounded flex input and output buffer when no buffer section is given) *)
+Theorem compile_shape_as_written early i L :
+  compile_inst d early = Ok (i, L) ->
+  nm d = Ok (length (i_machs i))
+  /\ length (i_trans i) = (match match d_log d with Some lg => dl_amount lg | None => None end with
+                            | Some n => n | None => nj d end)
+  /\ i_bufs i = (match d_bufs d with
+                  | [] => [default_buf RInput; default_buf ROutput]
+                  | l => map (fun e => custom_buf (snd e)) l end)
+  /\ i_early i = early.
+Proof.
+  unfold compile_inst. intros H.
+  destruct (nm d) as [nmach|] eqn:En; simpl in H; [|discriminate].
+  destruct (build_machines d 0 nmach nmach (map fst (d_bufs d))) as [[[machs mlabs] ids1]|] eqn:Em; simpl in H; [|discriminate].
+  pose proof (build_machines_len _ _ _ _ _ _ _ Em) as Lm.
+  destruct (match d_log d with Some lg => dl_amount lg | None => None end) as [amount|] eqn:Ea.
+  - destruct (build_transports d true amount ids1) as [[trans tlabs] ids2] eqn:Et.
+    pose proof (build_transports_len _ _ _ _ _ _ Et) as Lt.
+    destruct (d_bufs d) as [|b0 bl] eqn:Eb.
+    + repeat match type of H with context [let '(_, _) := ?e in _] => destruct e as [? ?] end.
+      match type of H with bind ?e _ = _ => destruct e as [jobs|]; simpl in H; [|discriminate] end.
+      inversion H; subst i L. simpl. rewrite Lm. auto.
+    + match type of H with bind ?e _ = _ => destruct e as [jobs|]; simpl in H; [|discriminate] end.
+      match type of H with bind ?e _ = _ => destruct e; simpl in H; [|discriminate] end.
+      inversion H; subst i L. simpl. rewrite Lm. auto.
+  - destruct (build_transports d false (nj d) ids1) as [[trans tlabs] ids2] eqn:Et.
+    pose proof (build_transports_len _ _ _ _ _ _ Et) as Lt.
+    destruct (d_bufs d) as [|b0 bl] eqn:Eb.
+    + repeat match type of H with context [let '(_, _) := ?e in _] => destruct e as [? ?] end.
+      match type of H with bind ?e _ = _ => destruct e as [jobs|]; simpl in H; [|discriminate] end.
+      inversion H; subst i L. simpl. rewrite Lm. auto.
+    + match type of H with bind ?e _ = _ => destruct e as [jobs|]; simpl in H; [|discriminate] end.
+      match type of H with bind ?e _ = _ => destruct e; simpl in H; [|discriminate] end.
+      inversion H; subst i L. simpl. rewrite Lm. auto.
+Qed.
+
+End J.
